@@ -486,7 +486,7 @@ fn note_refusal(rep: &mut Report, spec: &ReqSpec) {
 pub fn run(ctx: &Ctx) -> Report {
     let mut rep = Report::new(
         "exploration",
-        "cells = (listener settings: elide/send X-Real-IP, correlation header name, sticky name, listener HSTS) x requests drawn from a header-list grammar (ordinary/near-miss/random names in mixed case, empty/long/obs-text/quoted/comma values, duplicates, cookies with the sticky cookie first/middle/last, hop-by-hop and Connection-listed fields (option lists on one line or spread over several Connection lines), H1 request bytes cut at structural positions (inside the head, head/body boundary, chunk-size line, body, every position of the last-chunk + trailer region) and written as separate segments, client-supplied X-Forwarded-For/Forwarded/X-Forwarded-Proto/Port/X-Real-IP/X-Request-Id/correlation header single and duplicated, the same names in trailers) x {H1/TCP, H1/TLS, H2/TLS} x {H1, h2c} backends x sticky on/off x frontend variants {plain, header edits, rewrite, HSTS} x peer {127.x.y.z, ::1, PROXY v2 IPv4/IPv6}; one evaluation = one request; non-trivial = forwarded to a recording backend and compared in both directions; distinct = distinct (front, cluster, variant, peer mode, feature tags)",
+        "cells = (listener settings: elide/send X-Real-IP, correlation header name, sticky name, listener HSTS) x requests drawn from a header-list grammar (ordinary/near-miss/random names in mixed case, empty/long/obs-text/quoted/comma values, duplicates, cookies in one field / several Cookie fields / H2 crumbs with the sticky cookie first/middle/last, case variants and prefix/suffix look-alikes of the sticky name, empty values, hop-by-hop and Connection-listed fields (option lists on one line or spread over several Connection lines), H1 request bytes cut at structural positions (inside the head, head/body boundary, chunk-size line, body, every position of the last-chunk + trailer region) and written as separate segments, client-supplied X-Forwarded-For/Forwarded/X-Forwarded-Proto/Port/X-Real-IP/X-Request-Id/correlation header single and duplicated, the same names in trailers) x {H1/TCP, H1/TLS, H2/TLS} x {H1, h2c} backends x sticky on/off x frontend variants {plain, header edits, rewrite, HSTS} x peer {127.x.y.z, ::1, PROXY v2 IPv4/IPv6}; one evaluation = one request; non-trivial = forwarded to a recording backend and compared in both directions; distinct = distinct (front, cluster, variant, peer mode, feature tags)",
     );
     rep.assume("hop-by-hop fields (Connection, Keep-Alive, Proxy-Connection, TE, Transfer-Encoding, Upgrade, fields named in Connection), Content-Length and Trailer are not compared (only: never inside HTTP/2)");
     rep.assume("requests sozu answers itself (400/404/421, refused H2 streams) are counted, not judged (C02/C03)");
@@ -495,6 +495,8 @@ pub fn run(ctx: &Ctx) -> Report {
         "forwarded/h1-h1", "forwarded/h1-h2", "forwarded/h2-h1", "forwarded/h2-h2",
         "requests/h1tcp-h1", "requests/h1tls-h1", "requests/h2tls-h1", "requests/h1tcp-h2", "requests/h1tls-h2", "requests/h2tls-h2",
         "fields_compared", "response_fields_compared", "cookie_pairs_compared", "sticky_removed",
+        "cookie_pairs_compared/case_variant_of_sticky_name", "cookie_pairs_compared/lookalike_of_sticky_name", "cookie_pairs_compared/empty_value",
+        "cookie_cases/several_cookie_fields_h1", "cookie_cases/several_cookie_fields_h2", "cookie_sticky_at_first", "cookie_sticky_at_middle", "cookie_sticky_at_last",
         "xff_checked", "forwarded_checked", "x_real_ip_injected_checked", "x_real_ip_elision_checked",
         "x-forwarded-proto_describes_listener_checked", "x-forwarded-port_describes_listener_checked",
         "spoof_attempts/x-forwarded-for", "spoof_attempts/x-forwarded-for/duplicated", "spoof_attempts/forwarded", "spoof_attempts/x-real-ip",
